@@ -179,6 +179,18 @@ CLAIMED['C18'] = dict(
     note='The partition half is enumeration of a discrete input space (pandas/networkx containers cannot be symbolic); only the ratio half is a for-all-values solver verdict. Graphs <= 5 nodes / 5 links.',
     ref='DESIGN.md section 4, C18')
 
+CLAIMED['C15'] = dict(
+    engine='symx+cxxsym',
+    technique='the real operator overloading / aml.Model registration executed in Python and the C++ evaluator (set_structure, evaluate, evaluate_csr_jacobian, _evaluate, add/remove) INTERPRETED from clang\'s JSON AST of the current evaluator.cpp, both on z3 Real proxies; every value-dependent branch forked; SMT (z3 NRA + uninterpreted transcendentals) decides residual == direct evaluation == reference and Jacobian == reference derivative per path',
+    text='For ~900 expression shapes of a bounded grammar (all binary operators x all leaf-kind pairs incl. reflected forms and the 0/1 shortcuts, 11 unary operators, two nested binary operators in both associations, '
+         'unary/binary mixes, shared sub-expressions also across constraints, inequality / if_else, conditional constraints with 2-3 branches, models of up to 3 constraints) and for 11 (thorough 23) add / remove / ConstraintDict / '
+         'set value / load_var_values_from_x / set_structure histories: for ALL values of the variables and parameters in [-8, 8], on every feasible path, the residual the interpreted C++ returns at Constraint.index equals '
+         'Constraint.evaluate() and an independent reference value; the CSR Jacobian entry at (Constraint.index, Var.index) equals an independent rule-table derivative (0 for unused variables) wherever the derivative exists; '
+         'indices are permutations; get_x / Leaf.value read back the last value given; nothing raises and no deleted, uninitialised or out-of-range C++ memory is touched. Object addresses (std::set order) ascending and descending (thorough: scrambled).',
+    note='Trusted: z3; clang\'s AST; the container / allocation model of vf/cxxsym.py (validated on every run against the compiled evaluator rebuilt from the same source); the SWIG wrapper and scipy.sparse only run in the replay; '
+         'exp/log/sin/.../non-integer powers are uninterpreted (congruence only); floats as reals; shapes <= 2 nested operators (3 in the shared / piecewise families); the reference evaluator and differentiator in vf/props/c15.py.',
+    ref='DESIGN.md section 4, C15')
+
 NOT_APPLICABLE = {
     'C03': 'compares the numerical output of the closed EPANET shared library with a compiled Newton/SuperLU iteration; neither can be executed '
            'symbolically with the tools on this image and a contract standing in for EPANET would be the property itself (DESIGN.md section 5)',
@@ -216,6 +228,8 @@ def main():
              'kind_free_text': 'translation of the expression DAGs built by the real model builder (wntr.sim.aml) into z3 terms'},
             {'name': 'ctrlplane', 'path': 'vf/ctrlplane.py', 'serves_properties': sorted(p for p in CLAIMED if 'ctrlplane' in CLAIMED[p]['engine']),
              'kind_free_text': 'the real WNTRSimulator.run_sim executed on proxies with only the Newton solve replaced by a policy stub (contract H)'},
+            {'name': 'cxxsym', 'path': 'vf/cxxsym.py', 'serves_properties': sorted(p for p in CLAIMED if 'cxxsym' in CLAIMED[p]['engine']),
+             'kind_free_text': 'interpreter of evaluator.cpp over clang\'s JSON AST with symbolic doubles (std containers, new/delete and iterators modelled)'},
             {'name': 'crosshair', 'path': 'vf/ch', 'serves_properties': sorted(p for p in CLAIMED if 'crosshair' in CLAIMED[p]['engine']),
              'kind_free_text': 'CrossHair (symbolic execution of Python with z3) on integer code and edit histories'},
         ],
